@@ -164,6 +164,16 @@ def table_rules(rp, F, repo, rule="TABLE=TXT"):
         for rid in rows:
             if rid not in seen:
                 rp.fail(rule, "missing/%04x" % rid, site(st), "txt row %04x (%s) is not in the registry" % (rid, rows[rid]["name"]))
+    # snapshot
+    snap, sorder = parse_txt(os.path.join(VERIF, "spec", "ciphers_snapshot.txt"))
+    nsnap = 0
+    for rid, s in snap.items():
+        r = rows.get(rid)
+        nsnap += 1
+        if r is None or r["raw"][:10] != s["raw"][:10]:
+            rp.fail((rule if rule != "TABLE=TXT" else "SNAPSHOT"), "%04x" % rid, "scripts/tls-ciphersuites.txt", "IANA assignment %04x %s was altered or removed" % (rid, s["name"]), expected=":".join(s["raw"][:10]), found=":".join(r["raw"][:10]) if r else None)
+    rp.ok((rule if rule != "TABLE=TXT" else "SNAPSHOT"), "scripts/tls-ciphersuites.txt", "rows-compared", "%d snapshot rows" % nsnap)
+    rp.floor("snapshot_rows", nsnap, 352)
     return rows, order
 
 
@@ -178,16 +188,6 @@ def run(tier, repo):
     rp.rule("DERIVED", "enc_key_size = enc_size/8; mac_length and enc_block_size tables equal the reference and mac_length = mac_size/8 on every HMAC row")
     rp.rule("NAME-TOKENS", "cipher, key size, mode, MAC/PRF and kx/au tokens of each IANA name agree with the columns")
     rows, order = table_rules(rp, F, repo)
-    # snapshot
-    snap, sorder = parse_txt(os.path.join(VERIF, "spec", "ciphers_snapshot.txt"))
-    nsnap = 0
-    for rid, s in snap.items():
-        r = rows.get(rid)
-        nsnap += 1
-        if r is None or r["raw"][:10] != s["raw"][:10]:
-            rp.fail("SNAPSHOT", "%04x" % rid, "scripts/tls-ciphersuites.txt", "IANA assignment %04x %s was altered or removed" % (rid, s["name"]), expected=":".join(s["raw"][:10]), found=":".join(r["raw"][:10]) if r else None)
-    rp.ok("SNAPSHOT", "scripts/tls-ciphersuites.txt", "rows-compared", "%d snapshot rows" % nsnap)
-    rp.floor("snapshot_rows", nsnap, 352)
     rp.floor("registry_rows", len(rows), 352)
 
     # lookups
